@@ -24,7 +24,7 @@ ASSUMPTIONS = [
     "rows beginning with the negation word are negated forms for an ACL; they occur only in the dedicated sub-family",
     "compiled ACL objects are obtained per ACL text through the lru_cached compile_acl_text (object reuse is C20's topic)",
 ]
-BUDGET = {"quick": 60, "thorough": 900}
+BUDGET = {"quick": 150, "thorough": 900}
 VENDOR = "huawei"
 PREFIX = "undo"
 
